@@ -7,6 +7,8 @@ Driver.  Runs the REAL ``mesonbuild.mformat.Formatter(...).format(text, path)`` 
       REAL meson.format / .editorconfig files in a scratch tree, loaded by the real Formatter;
   (2) every build file of the repository corpus once (and mutated variants that still parse);
   (3) directed probes for every listed finding and negative controls;
+  (3b) process-history independence: the same (text, configuration) cases formatted first-in-process (one pristine child
+      each) and one after the other in one process, neighbours differing in indent_by;
   (4) the real ``meson format`` command (fork server): -q, -d, -i, -o, plain stdout, stdin, -r, -c / meson.format
       auto-discovery, -e, CRLF/CR files; multi-file runs (-r and several sources) under FILE-SPECIFIC .editorconfig
       sections, judged against a fresh Formatter per file (the result for a file must not depend on earlier files);
@@ -1302,6 +1304,129 @@ def dispatch(task: T.Tuple[str, T.Any]) -> dict:
 
 # --------------------------------------------------------------------------------------------------
 
+# ---- the output is a function of (text, configuration) only: not of what the PROCESS formatted before ----------------
+
+HISTORY_TAIL = ("if true\n    exe = executable('t', 'main.c',\n        # a comment on its own line\n        # and a second one\n"
+                "        gen, install: true, sources: [1,\n          # inner comment\n          2],\n    )\n"
+                "    foreach i : [1]\n        d = {'k': i,\n            # comment in a dict\n            'l': (i\n                # comment in parentheses\n"
+                "                + 1)}\n    endforeach\nendif\n")
+
+
+def in_pristine_child(fn: T.Callable[[T.Any], T.Any], arg: T.Any, timeout: float = 120.0) -> T.Any:
+    """Run fn(arg) in a child forked from THIS process and return its JSON-able result (None if it died).  Called from
+    the main process, which never formats anything itself, so the child starts with no formatter state at all."""
+    r, w = os.pipe()
+    pid = os.fork()
+    if pid == 0:
+        rc = 1
+        try:
+            os.close(r)
+            data = json.dumps(fn(arg)).encode('utf-8')
+            while data:
+                n = os.write(w, data[:65536])
+                data = data[n:]
+            rc = 0
+        finally:
+            os._exit(rc)
+    os.close(w)
+    chunks = []
+    t_end = time.time() + timeout
+    import select
+    while True:
+        ready, _, _ = select.select([r], [], [], max(0.0, t_end - time.time()))
+        if not ready:
+            try:
+                os.kill(pid, 9)
+            except ProcessLookupError:
+                pass
+            break
+        b = os.read(r, 1 << 16)
+        if not b:
+            break
+        chunks.append(b)
+    os.close(r)
+    os.waitpid(pid, 0)
+    try:
+        return json.loads(b''.join(chunks).decode('utf-8'))
+    except ValueError:
+        return None
+
+
+def _format_sequence(cases: T.Sequence[T.Tuple[str, int]]) -> T.List[T.Tuple[T.Optional[str], str]]:
+    """child side: format the cases in order with the real Formatter; -> [(output or None, effective indent_by), ...]"""
+    assert ENV is not None
+    silence_mlog()
+    out: T.List[T.Tuple[T.Optional[str], str]] = []
+    for text, ci in cases:
+        try:
+            f = formatter(ci)
+            o = f.format(text, Path(ENV.entries[ci]['src']))
+            out.append((o, f.current_config.indent_by))
+        except Exception as e:   # noqa: BLE001
+            out.append((None, f'{type(e).__name__}: {e}'[:200]))
+    return out
+
+
+def history_probe(chk: common.Check, n: int) -> None:
+    """n (text, configuration) cases.  Reference: each case formatted as the FIRST thing a process ever formats (one
+    pristine child per case).  Observed: the same cases formatted one after the other in ONE process, in two different
+    orders arranged so that neighbours differ in indent_by (and, the configurations coming from the pairwise set, in
+    most other keys).  Contract: same output - the formatted text depends on the file and its configuration only, so
+    `meson format -q` in a new process agrees with what an earlier multi-file `meson format -i` wrote."""
+    assert ENV is not None
+    rng = random.Random(f'{PID}:{chk.seed}:history')
+    by_indent: T.Dict[str, T.List[int]] = {}
+    for ci, c in enumerate(ENV.cfgs):
+        by_indent.setdefault(c['indent_by'], []).append(ci)
+    cases: T.List[T.Tuple[str, int]] = []
+    keys = sorted(by_indent)
+    g = G.Gen(rng, noise=0.5, size=3, ml_backslash=False)
+    while len(cases) < n:
+        for k in keys:                       # round-robin over the indentation units: neighbours always differ
+            t = ''.join(g.program())
+            if not parses(t):
+                continue
+            t = (t if t.endswith('\n') else t + '\n') + HISTORY_TAIL
+            if not parses(t):
+                continue
+            cases.append((t, rng.choice(by_indent[k])))
+    cases = cases[:n]
+    ref = [in_pristine_child(_format_sequence, [c]) for c in cases]
+    orders = [list(range(len(cases))), list(reversed(range(len(cases))))]
+    shuffled = list(range(len(cases)))
+    rng.shuffle(shuffled)
+    orders.append(shuffled)
+    for order in orders:
+        got = in_pristine_child(_format_sequence, [cases[i] for i in order])
+        if got is None:
+            chk.inconclusive_case('history-child-died')
+            continue
+        prev_indent: T.Optional[str] = None
+        for pos, i in enumerate(order):
+            r0 = ref[i][0] if ref[i] else None
+            if r0 is None or r0[0] is None or got[pos][0] is None:
+                chk.count('skipped:history-case-formatter-raised')
+                prev_indent = got[pos][1]
+                continue
+            chk.count('contract:output-independent-of-process-history')
+            if pos > 0:
+                chk.count('history:cases-formatted-after-another-configuration')
+                if prev_indent is not None and prev_indent != got[pos][1]:
+                    chk.count('history:cases-formatted-after-a-different-indent_by')
+            prev_indent = got[pos][1]
+            chk.case(common.digest(['history', i, pos, order[pos - 1] if pos else None]))
+            if got[pos][0] != r0[0]:
+                text, ci = cases[i]
+                chk.count('violations:formatter-output-depends-on-process-history')
+                if chk.counters['violations:formatter-output-depends-on-process-history'] > WITNESS_PER_MECH:
+                    continue
+                chk.violation('formatter-output-depends-on-process-history',
+                              {'kind': 'history', 'text': text[:MAX_TEXT], 'config': cfg_brief(ENV.cfgs[ci]),
+                               'written_keys': ENV.entries[ci]['written'],
+                               'formatted_before_in_this_process': [cfg_brief(ENV.cfgs[cases[j][1]]) for j in order[max(0, pos - 3):pos]],
+                               'first_in_process': r0[0][:3000], 'after_other_files': got[pos][0][:3000]})
+
+
 def build_env(chk: common.Check, extra_random: int) -> Env:
     rng = random.Random(f'{PID}:{chk.seed}:configs')
     cfgs = G.configs(rng, 2, extra_random)
@@ -1364,6 +1489,8 @@ def main() -> int:
     budget = 70.0 if quick else 16 * 60.0
     if os.environ.get('VERIF_C16_BUDGET'):      # development aid on an overloaded machine (seconds of wall clock)
         budget = float(os.environ['VERIF_C16_BUDGET'])
+    # before any worker exists: the main process formats nothing itself, so children forked from it are pristine
+    history_probe(chk, 30 if quick else 150)
     tasks: T.List[T.Tuple[str, T.Any]] = [('probes', 0)]
     corpus = G.corpus_files(common.REPO)
     n_cli = 160 if quick else 1200
@@ -1424,9 +1551,10 @@ def main() -> int:
                  'probe:run', 'probe:cli-run', 'probe:split-run', 'contract:final-newline', 'cases:corpus', 'cases:gen', 'accepted:literal-respelled',
                  'pass:TrimWhitespaces.visit_StringNode', 'pass:TrimWhitespaces.visit_FunctionNode',
                  'pass:ArgumentFormatter.visit_ArgumentNode', 'pass:ComputeLineLengths.visit_ArgumentNode', 'rounds:2', 'rounds:5',
-                 'rounds:limit-hit-still-wanting-more'):
+                 'rounds:limit-hit-still-wanting-more', 'contract:output-independent-of-process-history'):
         chk.require(name, 1)
     chk.require('cases:gen', 600 if quick else 10000)
+    chk.require('history:cases-formatted-after-a-different-indent_by', 40 if quick else 200)
     chk.notes['cpu_seconds_by_workload'] = {k: round(v, 1) for k, v in walls.items()}
     cells = {
         'configurations': len(ENV.cfgs),
